@@ -19,25 +19,10 @@
   Values are elements of a carrier `K` (the driver uses checked rationals: values at a sample point).
   No Mathlib import.
 -/
+import Lcapy.Spec.Retained
 namespace Lcapy.Rewrite
 
-/-- one netlist line of the restricted grammar `name nodes… [keyword] [value [ic]] [extra…]` -/
-structure Elt (K : Type) where
-  name : String
-  ty : String
-  nodes : List String
-  kw : String := ""
-  val : Option K := none        -- args[0]
-  ic : Option K := none         -- args[1] of L and C (initial current / voltage)
-  extra : List String := []     -- other raw arguments (control source name, second gain, …)
-deriving Repr, DecidableEq
-
 variable {K : Type}
-
-def Elt.n1 (e : Elt K) : String := e.nodes.getD 0 ""
-def Elt.n2 (e : Elt K) : String := e.nodes.getD 1 ""
-
-abbrev Net (K : Type) := List (Elt K)
 
 /-! ### the value rules of `_do_simplify_combine` (generic in the arithmetic) -/
 section values
@@ -65,29 +50,50 @@ def combineIC (first : Option K) (all : List (Option K)) : Except String (Option
 
 end values
 
-/-- `_check_ic`: all members agree on having an IC and, if so, on its value -/
-def checkIC [DecidableEq K] (ics : List (Option K)) : Bool :=
-  match ics with
-  | [] => true
-  | a :: t => t.all (fun b => b = a)
+/-- `_check_ic`: all members agree on having an IC and, if so, on its value.  The member popped
+    from the set decides what happens when only some members carry an IC: popped without IC ⇒
+    `False` (the group is skipped); popped with IC ⇒ `args[1]` of a member without IC raises
+    `IndexError`.  Returns every possible answer. -/
+def checkIC [DecidableEq K] (ics : List (Option K)) : List (Except String Bool) :=
+  if ics.all Option.isSome || ics.all Option.isNone then
+    match ics with
+    | [] => [.ok true]
+    | a :: t => [.ok (t.all (fun b => b = a))]
+  else [.ok false, .error "IndexError"]
 
 /-! ### equipotential nodes (nodes joined by wires) -/
 
 def isWire (e : Elt K) : Bool := e.ty = "W"
 
-def addNode (cls : List (List String)) (n : String) : List (List String) :=
-  if cls.any (fun c => c.contains n) then cls else cls ++ [[n]]
+/-- `EquipotentialNodes`: an insertion-ordered dict key ↦ members; every node starts as its own class -/
+abbrev EqNodes := List (String × List String)
 
-def mergeWire (cls : List (List String)) (a b : String) : List (List String) :=
-  match cls.findIdx? (fun c => c.contains a), cls.findIdx? (fun c => c.contains b) with
-  | some i, some j =>
-    if i = j then cls
-    else ((cls.eraseIdx (max i j)).eraseIdx (min i j)) ++ [cls.getD i [] ++ cls.getD j []]
+def EqNodes.addNode (cls : EqNodes) (n : String) : EqNodes :=
+  if cls.any (fun c => c.1 = n) then cls else cls ++ [(n, [n])]
+
+def EqNodes.findKey (cls : EqNodes) (n : String) : Option String :=
+  (cls.find? (fun c => c.2.contains n)).map (·.1)
+
+/-- `add_wire(n1, n2)`: the class of `n1` is moved into the class of `n2` (which keeps its place in
+    the dict), unless the key of `n2` contains an underscore -/
+def EqNodes.addWire (cls : EqNodes) (a b : String) : EqNodes :=
+  match cls.findKey a, cls.findKey b with
+  | some k1, some k2 =>
+    if k1 = k2 then cls
+    else
+      let m1 := ((cls.find? (·.1 = k1)).map (·.2)).getD []
+      let m2 := ((cls.find? (·.1 = k2)).map (·.2)).getD []
+      if k2.contains '_' then
+        (cls.filter (·.1 ≠ k2)).map (fun c => if c.1 = k1 then (k1, m1 ++ m2) else c)
+      else
+        (cls.filter (·.1 ≠ k1)).map (fun c => if c.1 = k2 then (k2, m2 ++ m1) else c)
   | _, _ => cls
 
-def nodeClasses (net : Net K) : List (List String) :=
-  let all := net.foldl (fun acc c => c.nodes.foldl addNode acc) []
-  net.foldl (fun acc c => if isWire c then mergeWire acc c.n1 c.n2 else acc) all
+def eqNodes (net : Net K) : EqNodes :=
+  let all := net.foldl (fun acc c => c.nodes.foldl EqNodes.addNode acc) ([] : EqNodes)
+  net.foldl (fun acc c => if isWire c then acc.addWire c.n1 c.n2 else acc) all
+
+def nodeClasses (net : Net K) : List (List String) := (eqNodes net).map (·.2)
 
 /-- sort key of `equipotential_nodes`: names without underscore first, then alphabetical -/
 def nodeLt (a b : String) : Bool :=
@@ -209,9 +215,84 @@ structure Sweep (K : Type) where
   net : Net K
   taken : List String
   changed : Bool := false
+  log : List String := []       -- one event per combined group (for diagnostics and structural keys)
+
+/-! #### structural facts about a group (used for the event log, not by the rewrite itself) -/
+
+/-- all terminals (component name, terminal index) attached to the equipotential class of `n` -/
+def incidences (net : Net K) (n : String) : List (String × Nat) :=
+  let nm := nodeMap (nodeClasses net)
+  let k := nm n
+  (net.filter (fun e => !(isWire e))).flatMap (fun e =>
+    (e.nodes.zipIdx.filter (fun p => nm p.1 = k)).map (fun p => (e.name, p.2)))
+
+/-- a clean junction of the group: a non-ground node whose only incidences are two terminals of
+    two different members, one entering and one leaving or not (orientation is judged elsewhere) -/
+def cleanJunctions (net : Net K) (group : List (Elt K)) : List String :=
+  let nm := nodeMap (nodeClasses net)
+  let cand := ((group.flatMap (fun e => e.nodes.take 2)).map nm).eraseDups
+  cand.filter (fun n =>
+    n ≠ "0" &&
+    (match incidences net n with
+     | [a, b] => a.1 ≠ b.1 && group.any (·.name = a.1) && group.any (·.name = b.1)
+     | _ => false))
+
+/-- the series group is contiguous and no interior node is ground or seen by anything else -/
+def seriesGuard (net : Net K) (group : List (Elt K)) : Bool :=
+  (cleanJunctions net group).length + 1 ≥ group.length
+
+/-- walk along a series chain from `node`, away from the element `cur`; returns the elements met
+    with `true` when they point in the direction of travel (entered at their first node) -/
+def walk (net : Net K) (g : Graph) : Nat → String → String → List (String × Bool) → List (String × Bool)
+  | 0, _, _, acc => acc
+  | fuel + 1, cur, node, acc =>
+    let nm := nodeMap (nodeClasses net)
+    let nb := g.nbrs node
+    if nb.length ≠ 2 then acc
+    else match nb.find? (fun p => p.2 ≠ cur) with
+      | none => acc
+      | some p =>
+        if acc.any (·.1 = p.2) then acc
+        else match net.find? (fun e => e.name = p.2) with
+          | none => acc
+          | some e =>
+            let fwd : Bool := nm e.n1 = node
+            walk net g fuel e.name p.1 (acc ++ [(e.name, fwd)])
+
+/-- sign of every element of the chain relative to `first` (`true` = same direction) -/
+def seriesSigns (net : Net K) (first : Elt K) : List (String × Bool) :=
+  let g := buildGraph net
+  let nm := nodeMap (nodeClasses net)
+  let fwd := walk net g (g.length + 1) first.name (nm first.n2) [(first.name, true)]
+  let bwd := walk net g (g.length + 1) first.name (nm first.n1) fwd
+  -- elements met walking backwards were entered at their far end: flip
+  let nf := fwd.length
+  bwd.zipIdx.map (fun p => if p.2 < nf then p.1 else (p.1.1, !p.1.2))
+
+def parallelSigns (net : Net K) (first : Elt K) (group : List (Elt K)) : List (String × Bool) :=
+  let nm := nodeMap (nodeClasses net)
+  group.map (fun e => (e.name, decide (nm e.n1 = nm first.n1)))
 
 section combine
-variable [Add K] [Div K] [OfNat K 0] [OfNat K 1]
+variable [Add K] [Div K] [Neg K] [OfNat K 0] [OfNat K 1] [DecidableEq K]
+
+def signed (sg : List (String × Bool)) (e : Elt K) (v : K) : K :=
+  match sg.find? (·.1 = e.name) with
+  | some (_, false) => -v
+  | _ => v
+
+/-- the electrically correct value and IC of the combined element sitting where `first` sits
+    (proved in Lcapy/Props/C05.lean): polarised quantities enter with their sign relative to
+    `first`; a quantity shared by all members (current of a series chain, voltage of a parallel
+    group) is taken once, not summed. -/
+def correctVal (ty : String) (add : Bool) (sg : List (String × Bool)) (group : List (Elt K)) : K :=
+  if ty = "V" || ty = "I" then sumVals (group.map (fun e => signed sg e (e.val.getD 0)))
+  else combineVal add (group.filterMap (·.val))
+
+def correctIC (shared : Bool) (sg : List (String × Bool)) (first : Elt K) (group : List (Elt K)) : Option K :=
+  if group.all (fun e => e.ic.isNone) then none
+  else if shared then some (first.ic.getD 0)
+  else some (sumVals (group.map (fun e => signed sg e (e.ic.getD 0))))
 
 /-- combine `group` with `first` as `subset_list[0]`: the new element takes the first's nodes,
     keyword and extra arguments, the combined value and IC, and the name `<initial>t<m>`;
@@ -228,7 +309,21 @@ def combineWith (st : Sweep K) (group : List (Elt K)) (first : Elt K) (add serie
   let others := group.filter (fun e => e.name ≠ first.name)
   let net := st.net.filter (fun e => !(group.any (fun x => x.name = e.name)))
   let wires : List (Elt K) := if series then others.map (fun e => { name := "W", ty := "W", nodes := e.nodes.take 2 }) else []
-  pure { net := net ++ [newElt] ++ wires, taken := st.taken ++ [newname], changed := true }
+  -- event log: where the code's rule leaves the proved rule
+  let sg := if series then seriesSigns st.net first else parallelSigns st.net first group
+  let shared := (series && first.ty = "L") || (!series && first.ty = "C")
+  let icOk : Bool := match ic, correctIC shared sg first group with
+    | none, none => true
+    | a, b => a.getD 0 = b.getD 0
+  let flags : List String :=
+    (if total = correctVal first.ty add sg group then [] else ["polarity"]) ++
+    (if icOk then [] else (if !(group.all (fun e => e.ic.isSome)) then ["icmixed"]
+                        else if (sg.filter (fun p => group.any (·.name = p.1))).all (·.2) then ["icsum"] else ["icsign"])) ++
+    (if series && !(seriesGuard st.net group) then ["observed"] else []) ++
+    (if group.all (fun e => e.kw = first.kw && e.extra = first.extra) then [] else ["kwmix"])
+  let ev := (if series then "series" else "parallel") ++ ":" ++ first.ty ++ ":" ++ newname ++ ":" ++ first.name ++ ":" ++
+    ",".intercalate (group.map (·.name)) ++ ":" ++ ",".intercalate flags
+  pure { net := net ++ [newElt] ++ wires, taken := st.taken ++ [newname], changed := true, log := st.log ++ [ev] }
 
 /-- all outcomes of combining one type-subset: one per choice of the surviving first element -/
 def combineGroup (st : Sweep K) (group : List (Elt K)) (add series : Bool) : List (Except String (Sweep K)) :=
@@ -253,26 +348,37 @@ def parallelRule (ty : String) : Except String (Option (Bool × Bool)) :=
   else .error "RuntimeError"
 
 section sweep
-variable [Add K] [Div K] [OfNat K 0] [OfNat K 1] [DecidableEq K]
+variable [Add K] [Div K] [Neg K] [OfNat K 0] [OfNat K 1] [DecidableEq K]
 
 /-- fan a list of partial outcomes through a nondeterministic step -/
 def bindAll {α : Type} (xs : List (Except String α)) (f : α → List (Except String α)) : List (Except String α) :=
   xs.flatMap (fun x => match x with | .error e => [.error e] | .ok a => f a)
 
 /-- `_simplify_combine_series` / `_simplify_combine_parallel` on the netlist `net0`.
-    The sets are computed once, on the netlist the sweep starts from. -/
+    The sets are computed once, on the netlist the sweep starts from; the type subsets of each set
+    are looked up in the netlist being edited, so a set that names a component already consumed
+    by an earlier (overlapping) set raises `KeyError` — overlapping sets arise when a component
+    is short-circuited (both nodes at the same potential). -/
 def combineSweep (net0 : Net K) (skip : List String) (series : Bool) : List (Except String (Sweep K)) :=
   let sets := if series then seriesSets net0 else parallelSets net0
   let start : Sweep K := { net := net0, taken := net0.map (·.name) }
   sets.foldl (fun outs aset =>
       let aset := aset.filter (fun n => !(skip.contains n))
-      (typeSubsets net0 aset).foldl (fun outs p =>
-          match (if series then seriesRule p.1 else parallelRule p.1) with
-          | .error e => outs.map (fun _ => .error e)
-          | .ok none => outs
-          | .ok (some (add, chk)) =>
-            if chk && !(checkIC (p.2.map (·.ic))) then outs
-            else bindAll outs (fun st => combineGroup st p.2 add series)) outs)
+      bindAll outs (fun st =>
+        if aset.any (fun n => !(st.net.any (·.name = n))) then [.error "KeyError"]
+        else
+          (typeSubsets st.net aset).foldl (fun outs p =>
+              match (if series then seriesRule p.1 else parallelRule p.1) with
+              | .error e => outs.map (fun _ => .error e)
+              | .ok none => outs
+              | .ok (some (add, chk)) =>
+                if chk then
+                  (checkIC (p.2.map (·.ic))).flatMap (fun r =>
+                    match r with
+                    | .error e => outs.map (fun _ => .error e)
+                    | .ok false => outs
+                    | .ok true => bindAll outs (fun st => combineGroup st p.2 add series))
+                else bindAll outs (fun st => combineGroup st p.2 add series)) [.ok st]))
     [.ok start]
 
 /-! ### dangling / disconnected removal -/
@@ -315,27 +421,27 @@ structure Opts where
 def allNodes (net : Net K) : List String := (net.flatMap (·.nodes)).eraseDups
 
 /-- one pass: dangling, disconnected, series, parallel — returns outcomes with their `changed` flag -/
-def onePass (o : Opts) (skip keep : List String) (net : Net K) : List (Except String (Net K × Bool)) :=
+def onePass (o : Opts) (skip keep : List String) (net : Net K) : List (Except String (Net K × Bool × List String)) :=
   let (n1, c1) := if o.dangling then removeDangling net skip keep else (net, false)
   let (n2, c2) := if o.disconnected then removeDisconnected n1 skip keep else (n1, false)
-  let afterSeries : List (Except String (Net K × Bool)) :=
-    if o.series then (combineSweep n2 skip true).map (fun r => r.map (fun st => (st.net, c1 || c2 || st.changed)))
-    else [.ok (n2, c1 || c2)]
+  let afterSeries : List (Except String (Net K × Bool × List String)) :=
+    if o.series then (combineSweep n2 skip true).map (fun r => r.map (fun st => (st.net, c1 || c2 || st.changed, st.log)))
+    else [.ok (n2, c1 || c2, [])]
   bindAll afterSeries (fun p =>
-    if o.parallel then (combineSweep p.1 skip false).map (fun r => r.map (fun st => (st.net, p.2 || st.changed)))
+    if o.parallel then (combineSweep p.1 skip false).map (fun r => r.map (fun st => (st.net, p.2.1 || st.changed, p.2.2 ++ st.log)))
     else [.ok p])
 
-def passesLoop (o : Opts) (skip keep : List String) : Nat → Net K → List (Except String (Net K))
-  | 0, net => [.ok net]
-  | fuel + 1, net =>
-    (onePass o skip keep net).flatMap (fun r =>
+def passesLoop (o : Opts) (skip keep : List String) : Nat → Net K × List String → List (Except String (Net K × List String))
+  | 0, st => [.ok st]
+  | fuel + 1, st =>
+    (onePass o skip keep st.1).flatMap (fun r =>
       match r with
       | .error e => [.error e]
-      | .ok (n, changed) => if changed then passesLoop o skip keep fuel n else [.ok n])
+      | .ok (n, changed, log) => if changed then passesLoop o skip keep fuel (n, st.2 ++ log) else [.ok (n, st.2 ++ log)])
 
 /-- `NetlistSimplifyMixin.simplify` (with `modify=True`): every outcome reachable under some
     set iteration order -/
-def simplify (o : Opts) (net : Net K) : List (Except String (Net K)) :=
+def simplify (o : Opts) (net : Net K) : List (Except String (Net K × List String)) :=
   let keep := match o.keep with
     | some k => k
     | none => if (allNodes net).contains "0" then ["0"] else []
@@ -343,7 +449,7 @@ def simplify (o : Opts) (net : Net K) : List (Except String (Net K)) :=
     | some sel => (net.map (·.name)).filter (fun n => !(sel.contains n))
     | none => []
   let skip := skip0 ++ o.ignore
-  passesLoop o skip keep (if o.passes = 0 then 100 else o.passes) net
+  passesLoop o skip keep (if o.passes = 0 then 100 else o.passes) (net, [])
 
 end sweep
 
